@@ -43,7 +43,8 @@ fn ref_profile(p: u8, c: u8) -> Option<&'static str> {
     }
 }
 
-fn judge(seed: u64, movie: &MovieSpec, h: &[Op], what: &str, l: &mut Local) {
+fn judge(seed: u64, movie_as_configured: &MovieSpec, h: &[Op], what: &str, l: &mut Local) {
+    let movie = movie_as_configured;
     l.evaluations += 1;
     l.transitions += (3 + h.len()) as u64;
     let case = || json!({"engine": "config", "enumeration": what, "config": movie.to_json(), "history": hist_json(h), "seed": seed});
@@ -61,10 +62,19 @@ fn judge(seed: u64, movie: &MovieSpec, h: &[Op], what: &str, l: &mut Local) {
             return;
         }
     };
-    if let Some((i, e)) = out.calls.iter().enumerate().find(|(_, r)| r.is_err()) {
+    // add_track may be refused for configurations that cannot be represented (statement-level model); the movie then
+    // consists of the accepted tracks, numbered in the order they were added
+    let nspecs = movie.tracks.len();
+    let acc = accepted_tracks(&out.calls, nspecs);
+    let refused_ok = (0..nspecs).all(|i| acc.contains(&i) || movie.tracks[i].model_may_refuse());
+    let others_ok = out.calls.iter().enumerate().all(|(i, r)| r.is_ok() || (i >= 1 && i <= nspecs) || (i > nspecs && i <= nspecs + h.len() && h[i - nspecs - 1].track as usize > acc.len()));
+    if !refused_ok || !others_ok {
+        let (i, e) = out.calls.iter().enumerate().find(|(i, r)| r.is_err() && !(*i >= 1 && *i <= nspecs && movie.tracks[*i - 1].model_may_refuse())).unwrap_or((0, &out.calls[0]));
         fail("muxer_rejected_documented_config", "", json!({"call": i, "err": format!("{:?}", e)}), Value::Null, l);
         return;
     }
+    let accepted_movie = MovieSpec { tracks: acc.iter().map(|&i| movie.tracks[i].clone()).collect(), ..movie.clone() };
+    let movie = &accepted_movie;
     let r = match open(&out.bytes) {
         Ok(r) => r,
         Err(e) => {
@@ -356,8 +366,8 @@ pub fn run(tier: Tier, seed: u64) -> i32 {
 
     // SPS / PPS lengths
     let mut lens = vec![];
-    for sl in [4usize, 5, 255, 256, 65535] {
-        for pl in [4usize, 5, 255, 256, 65535] {
+    for sl in [4usize, 5, 255, 256, 65535, 65536, 70000] {
+        for pl in [4usize, 5, 255, 256, 65535, 65536, 70000] {
             lens.push((sl, pl));
         }
     }
@@ -371,6 +381,40 @@ pub fn run(tier: Tier, seed: u64) -> i32 {
             judge(seed, &m, &h, "sps_pps_lengths", l);
         }
     });
+
+    // refused configurations before / between / after accepted ones: the accepted tracks keep ids 1..n in the order added
+    {
+        let mut bad_avc = TrackSpec::new(Kind::Avc, 2000);
+        bad_avc.sps = vec![0x67, 0x42];
+        let bad_ts = TrackSpec::new(Kind::Aac, 0);
+        let mut good: Vec<TrackSpec> = ALL_KINDS.iter().enumerate().map(|(i, k)| TrackSpec::new(*k, 1000 + i as u32)).collect();
+        good[1].language = "fra".into();
+        let mut lists: Vec<Vec<TrackSpec>> = vec![];
+        for bad in [&bad_avc, &bad_ts] {
+            for a in good.iter() {
+                lists.push(vec![bad.clone(), a.clone()]);
+                lists.push(vec![a.clone(), bad.clone()]);
+                for b in good.iter() {
+                    lists.push(vec![a.clone(), bad.clone(), b.clone()]);
+                    lists.push(vec![bad.clone(), a.clone(), b.clone()]);
+                }
+            }
+        }
+        lists.push(vec![bad_avc.clone(), bad_ts.clone(), good[0].clone()]);
+        lists.push(vec![bad_avc.clone()]);
+        enumerations.push(json!({"name": "refused_tracks_among_accepted", "configs": lists.len(), "histories_each": 2}));
+        sweep(lists, &mut l, |tracks, l| {
+            let m = MovieSpec::new(1000, tracks.clone());
+            let accepted = tracks.iter().filter(|t| !t.model_may_refuse()).count() as u32;
+            let mut hs: Vec<Vec<Op>> = vec![vec![]];
+            if accepted >= 1 {
+                hs.push((1..=accepted).flat_map(|t| vec![Op { track: t, size: 2, dur: 600, off: 0, sync: true }, Op { track: t, size: 1, dur: 300, off: 0, sync: true }]).collect());
+            }
+            for h in hs {
+                judge(seed, &m, &h, "refused_tracks_among_accepted", l);
+            }
+        });
+    }
 
     // brands, minor version, timescales
     let bvals: [[u8; 4]; 4] = [*b"isom", *b"mp41", [0x80, 0xff, 0xa9, 0xfe], [0, 0, 0, 0]];
